@@ -48,7 +48,11 @@ func NewEnv(sc *Scenario) (*Env, error) {
 }
 
 func (e *Env) AddServer(name string) (*refsrv.Server, error) {
-	s, err := refsrv.NewServer(name, e.Key, e.Store, e.Hub)
+	return e.AddServerWithKey(name, e.Key)
+}
+
+func (e *Env) AddServerWithKey(name string, key *refsrv.RSAKey) (*refsrv.Server, error) {
+	s, err := refsrv.NewServer(name, key, e.Store, e.Hub)
 	if err != nil {
 		return nil, err
 	}
